@@ -92,6 +92,12 @@ pub fn block_on<F: Future>(fut: F) -> F::Output {
 /// then drops (cancels) it. Returns `Some(output)` or `None` when cancelled, plus the number
 /// of polls. The deadline only decides when to cancel — cancelling is always legal.
 pub fn block_on_or_cancel<F: Future>(fut: F, patience: Duration) -> (Option<F::Output>, u32) {
+  block_on_or_cancel_ex(fut, patience, false)
+}
+
+/// As `block_on_or_cancel`; with `drop_on_wake` the future is dropped at the moment its waker
+/// fires after a Pending poll, instead of being polled again ("cancelled after it was woken").
+pub fn block_on_or_cancel_ex<F: Future>(fut: F, patience: Duration, drop_on_wake: bool) -> (Option<F::Output>, u32) {
   let mut fut = std::pin::pin!(fut);
   let tw = Arc::new(ThreadWaker { thread: std::thread::current(), woken: AtomicBool::new(true) });
   let waker = Waker::from(tw.clone());
@@ -100,6 +106,9 @@ pub fn block_on_or_cancel<F: Future>(fut: F, patience: Duration) -> (Option<F::O
   let mut polls = 0;
   loop {
     if tw.woken.swap(false, Ordering::SeqCst) {
+      if drop_on_wake && polls > 0 {
+        return (None, polls);
+      }
       polls += 1;
       if let Poll::Ready(v) = fut.as_mut().poll(&mut cx) {
         return (Some(v), polls);
